@@ -1,7 +1,7 @@
 (** Entry points of the C08 models for the correspondence driver. *)
 From Coq Require Import String Ascii List NArith Bool.
 From Tongo Require Import Lib.Bits Lib.Res Lib.Sx Spec.Sha256 Spec.TlWire Model.BocParse
-     Model.Tl Model.TlTotal Model.TlbCore Model.TlbTotal Model.TlbHand Model.Framing Generated.TlBindings.
+     Model.Tl Model.TlTotal Model.TlbCore Model.TlbTotal Model.TlbHand Model.VmMap Model.Framing Generated.TlBindings.
 Import ListNotations.
 Local Open Scope string_scope.
 Local Open Scope list_scope.
@@ -169,6 +169,7 @@ Fixpoint yty_of_sx (fuel : nat) (a : sx) : option yty :=
                        if String.eqb k "maybe" then Some (YMaybe t) else if String.eqb k "eref" then Some (YEitherRef t)
                        else if String.eqb k "ref" then Some (YRef t) else if String.eqb k "mref" then Some (YMaybeRef t)
                        else if String.eqb k "hashed" then Some (YHashed t) else if String.eqb k "refraw" then Some (YRefRaw t)
+                       else if String.eqb k "nolib" then Some (YNoLib t)
                        else None
                    | None => None
                    end
@@ -229,12 +230,20 @@ Definition hash_oracle (root : xtree) (paths : list sx) : xtree -> bool :=
   let bad := flat_map (fun p => match p with SL l => match at_path root l with Some c => [c] | None => [] end | _ => [] end) paths in
   fun c => negb (existsb (xtree_eqb c) bad).
 
-(* c08.tlb: (cmp_rest desc tree [hash-failure paths]) -> ('ok bits refs) | 'ok | 'err | 'panic | 'fuel *)
+(* the resolver column: pairs (library cell, answer); no pair = the resolver returns an error *)
+Definition resolver_of (pairs : list sx) : xtree -> option xtree :=
+  let tab := flat_map (fun p => match p with
+                                | SL [a; b] => match xtree_of_sx 3000 a, xtree_of_sx 3000 b with
+                                               | Some x, Some y => [(x, y)] | _, _ => [] end
+                                | _ => [] end) pairs in
+  fun c => match find (fun e => xtree_eqb c (fst e)) tab with Some e => Some (snd e) | None => None end.
+
+(* c08.tlb: (cmp_rest desc tree [hash-failure paths [resolver pairs]]) -> ('ok bits refs) | 'ok | 'err | 'panic | 'fuel *)
 Definition run_tlb (a : sx) : sx :=
-  let go (cmp : bool) (d tr : sx) (paths : list sx) : sx :=
+  let go (cmp : bool) (d tr : sx) (paths : list sx) (rs : xtree -> option xtree) : sx :=
       match yty_of_sx 64 d, xtree_of_sx 3000 tr with
       | Some t, Some c =>
-          match fst (yunmarshal [] (hash_oracle c paths) 64 t c) with
+          match fst (yunmarshal [] (hash_oracle c paths) rs 64 t c) with
           | Ok s => if cmp then SL [SA "ok"; sx_nat (List.length (yb s)); sx_nat (List.length (yr s))] else SA "ok"
           | Err e => if N.eqb e EFuel then SA "fuel" else SA "err"
           | Panic _ => SA "panic"
@@ -242,9 +251,26 @@ Definition run_tlb (a : sx) : sx :=
       | _, _ => sx_err "tlb-shape"
       end in
   match a with
-  | SL [SB cmp; d; tr] => go cmp d tr []
-  | SL [SB cmp; d; tr; SL paths] => go cmp d tr paths
+  | SL [SB cmp; d; tr] => go cmp d tr [] no_resolver
+  | SL [SB cmp; d; tr; SL paths] => go cmp d tr paths no_resolver
+  | SL [SB cmp; d; tr; SL paths; SL pairs] => go cmp d tr paths (resolver_of pairs)
   | _ => sx_err "tlb"
+  end.
+
+(* c08.mapint: (tiny? z 'dest) -> 'ok | 'err | 'panic: VmStackValue.Unmarshal of an integer entry *)
+Definition dkind_of (k : string) : dkind :=
+  if String.eqb k "int" then DInt else if String.eqb k "uint" then DUint
+  else if String.eqb k "bool" then DBool else if String.eqb k "bits256" then DBits256
+  else if String.eqb k "int257" then DInt257 else if String.eqb k "bigint" then DBigInt
+  else if String.eqb k "pbits256" then DPtrBits256 else if String.eqb k "pint257" then DPtrInt257
+  else if String.eqb k "pother" then DPtrOther else DOther.
+Definition run_mapint (a : sx) : sx :=
+  match a with
+  | SL [SB tiny; SZ z; SA k; SA _] =>
+      match map_int (if tiny then STiny z else SBig z) (dkind_of k) with
+      | Ok _ => SA "ok" | Err _ => SA "err" | Panic _ => SA "panic"
+      end
+  | _ => sx_err "mapint"
   end.
 
 (* c08.tlbcost: modelled steps and allocation (evidence only) *)
@@ -252,7 +278,7 @@ Definition run_tlbcost (a : sx) : sx :=
   match a with
   | SL [SB _; d; tr] =>
       match yty_of_sx 64 d, xtree_of_sx 3000 tr with
-      | Some t, Some c => let st := snd (yunmarshal [] (fun _ => true) 64 t c) in SL [SN (c_steps st); SN (c_alloc st)]
+      | Some t, Some c => let st := snd (yunmarshal [] (fun _ => true) no_resolver 64 t c) in SL [SN (c_steps st); SN (c_alloc st)]
       | _, _ => sx_err "tlb-shape"
       end
   | _ => sx_err "tlbcost"
@@ -349,6 +375,7 @@ Definition run (name : string) (a : sx) : sx :=
   else if is "c08.tlalloc" then run_tlalloc a
   else if is "c08.tlb" then run_tlb a
   else if is "c08.tlbcost" then run_tlbcost a
+  else if is "c08.mapint" then run_mapint a
   else if is "c08.declen" then run_declen a
   else if is "c08.answer" then run_answer a
   else if is "c08.answer2" then run_answer2 a
